@@ -49,6 +49,29 @@ type prop struct {
 	Type       *ast   `json:"type"`
 	HasDefault bool   `json:"has_default"`
 	Disabled   bool   `json:"disabled"`
+	// rules between the fields of a value (names of other properties of the object); never null
+	Conflicts     []string `json:"conflicts"`
+	RequiredIf    []string `json:"required_if"`
+	RequiredIfNot []string `json:"required_if_not"`
+}
+
+func names(l []string) []string {
+	out := append([]string{}, l...)
+	sort.Strings(out)
+	return out
+}
+
+func sameNames(a, b []string) bool {
+	a, b = names(a), names(b)
+	if len(a) != len(b) {
+		return false
+	}
+	for i := range a {
+		if a[i] != b[i] {
+			return false
+		}
+	}
+	return true
 }
 
 type member struct {
@@ -62,6 +85,7 @@ type ast struct {
 	Max          *opt     `json:"max,omitempty"`
 	Values       []int64  `json:"values,omitempty"`
 	Named        bool     `json:"named,omitempty"`
+	Spell        string   `json:"spell,omitempty"` // string enum: token (default) | rune | mixed
 	Items        *ast     `json:"items,omitempty"`
 	Keys         *ast     `json:"keys,omitempty"`
 	Vals         *ast     `json:"vals,omitempty"`
@@ -74,6 +98,7 @@ type ast struct {
 	Objects      []*ast   `json:"objects,omitempty"`
 	Disc         string   `json:"disc,omitempty"`
 	Field        string   `json:"field,omitempty"`
+	Inline       bool     `json:"inline,omitempty"` // one-of: the discriminator is a property of every member
 	Members      []member `json:"members,omitempty"`
 }
 
@@ -97,7 +122,7 @@ func (a *ast) MarshalJSON() ([]byte, error) {
 	case "enum_int", "enum_string":
 		vs := append([]int64{}, a.Values...)
 		sort.Slice(vs, func(i, j int) bool { return vs[i] < vs[j] })
-		m["values"], m["named"] = vs, a.Named
+		m["values"], m["named"], m["spell"] = vs, a.Named, a.spell()
 	case "list":
 		bounds()
 		m["items"], m["impl"] = a.Items, a.impl()
@@ -107,6 +132,9 @@ func (a *ast) MarshalJSON() ([]byte, error) {
 	case "object":
 		ps := append([]prop{}, a.Props...)
 		sort.Slice(ps, func(i, j int) bool { return ps[i].Name < ps[j].Name })
+		for i := range ps {
+			ps[i].Conflicts, ps[i].RequiredIf, ps[i].RequiredIfNot = names(ps[i].Conflicts), names(ps[i].RequiredIf), names(ps[i].RequiredIfNot)
+		}
 		m["id"], m["props"], m["id_unenforced"], m["impl"] = a.ID, ps, a.IDUnenforced, a.impl()
 	case "ref":
 		m["id"] = a.ID
@@ -117,7 +145,7 @@ func (a *ast) MarshalJSON() ([]byte, error) {
 	case "oneof":
 		ms := append([]member{}, a.Members...)
 		sort.Slice(ms, func(i, j int) bool { return ms[i].Key < ms[j].Key })
-		m["disc"], m["field"], m["members"] = a.Disc, a.Field, ms
+		m["disc"], m["field"], m["members"], m["inline"] = a.Disc, a.Field, ms, a.Inline
 	}
 	return json.Marshal(m)
 }
@@ -353,6 +381,34 @@ func fp(o *opt) *float64 {
 }
 
 func token(n int64) string { return fmt.Sprintf("v%d", n) }
+
+func (a *ast) spell() string {
+	if a.Spell == "" {
+		return "token"
+	}
+	return a.Spell
+}
+
+// spelled: how the string enum a writes its value n - the token "v<n>" or the one-character string with the
+// code point n (what Go's integer-to-string conversion yields); "mixed": the least value as a rune
+func (a *ast) spelled(n int64) (string, error) {
+	asRune := a.spell() == "rune"
+	if a.spell() == "mixed" {
+		asRune = true
+		for _, v := range a.Values {
+			if v < n {
+				asRune = false
+			}
+		}
+	}
+	if !asRune {
+		return token(n), nil
+	}
+	if n < 33 || n > 126 {
+		return "", fmt.Errorf("enum value %d spelled as a rune (not well-formed: printable characters only)", n)
+	}
+	return string(rune(n)), nil
+}
 func mkey(n int64) string  { return fmt.Sprintf("k%d", n) }
 
 func display(named bool, n int64) *schema.DisplayValue {
@@ -411,7 +467,11 @@ func build1(a *ast) (schema.Type, error) {
 	case "enum_string":
 		m := map[string]*schema.DisplayValue{}
 		for _, v := range a.Values {
-			m[token(v)] = display(a.Named, v)
+			sv, err := a.spelled(v)
+			if err != nil {
+				return nil, err
+			}
+			m[sv] = display(a.Named, v)
 		}
 		return schema.NewStringEnumSchema(m), nil
 	case "list":
@@ -471,7 +531,11 @@ func build1(a *ast) (schema.Type, error) {
 				}
 				m[mb.Key] = o
 			}
-			return schema.NewOneOfIntSchema[any](m, a.Field, false), nil
+			o := schema.NewOneOfIntSchema[any](m, a.Field, a.Inline)
+			if o.DiscriminatorInlined != a.Inline || o.DiscriminatorFieldName() != a.Field {
+				return nil, bindErr("int one-of built with another discriminator / inlining than the AST says")
+			}
+			return o, nil
 		}
 		m := map[string]schema.Object{}
 		for _, mb := range a.Members {
@@ -481,7 +545,11 @@ func build1(a *ast) (schema.Type, error) {
 			}
 			m[mkey(mb.Key)] = o
 		}
-		return schema.NewOneOfStringSchema[any](m, a.Field, false), nil
+		o := schema.NewOneOfStringSchema[any](m, a.Field, a.Inline)
+		if o.DiscriminatorInlined != a.Inline || o.DiscriminatorFieldName() != a.Field {
+			return nil, bindErr("string one-of built with another discriminator / inlining than the AST says")
+		}
+		return o, nil
 	}
 	return nil, fmt.Errorf("unknown kind %q", a.Kind)
 }
@@ -560,7 +628,8 @@ func buildProps(a *ast) (map[string]*schema.PropertySchema, error) {
 			}
 			def = &d
 		}
-		ps[p.Name] = schema.NewPropertySchema(t, nil, p.Required, nil, nil, nil, def, nil)
+		ps[p.Name] = schema.NewPropertySchema(t, nil, p.Required, names(p.RequiredIf), names(p.RequiredIfNot),
+			names(p.Conflicts), def, nil)
 		if p.Disabled {
 			ps[p.Name] = ps[p.Name].Disable(disabledReason)
 		}
@@ -586,6 +655,10 @@ func checkFlags(a *ast, o schema.Object) error {
 		if (built.Default() != nil) != p.HasDefault || inDefaults != p.HasDefault {
 			return bindErr(fmt.Sprintf("property %s.%s: has_default=%v in the AST, Default()!=nil is %v, in GetDefaults() %v",
 				a.ID, p.Name, p.HasDefault, built.Default() != nil, inDefaults))
+		}
+		if !sameNames(built.Conflicts(), p.Conflicts) || !sameNames(built.RequiredIf(), p.RequiredIf) ||
+			!sameNames(built.RequiredIfNot(), p.RequiredIfNot) {
+			return bindErr(fmt.Sprintf("property %s.%s: the rules between fields of the built property differ from the AST", a.ID, p.Name))
 		}
 		if built.Disabled != p.Disabled || built.Required() != p.Required {
 			return bindErr(fmt.Sprintf("property %s.%s: disabled=%v required=%v in the AST, the built property says %v / %v",
@@ -626,7 +699,11 @@ func defaultFor(t *ast) (string, bool) {
 		if len(t.Values) == 0 {
 			return "", false
 		}
-		return strconv.Quote(token(t.Values[0])), true
+		sv, err := t.spelled(t.Values[0])
+		if err != nil {
+			return "", false
+		}
+		return strconv.Quote(sv), true
 	}
 	return "", false
 }
